@@ -60,7 +60,10 @@ pub use crate::protocol::SubstreamKeepAlive;
 pub use handle::{TransportHandle, TransportManagerHandle};
 pub use types::SupportedTransport;
 
+#[cfg(not(feature = "verif"))]
 pub(crate) mod address;
+#[cfg(feature = "verif")]
+pub mod address;
 pub mod limits;
 #[cfg(not(feature = "verif"))]
 mod peer_state;
@@ -71,7 +74,10 @@ mod types;
 #[cfg(feature = "verif")]
 pub mod types;
 
+#[cfg(not(feature = "verif"))]
 pub(crate) mod handle;
+#[cfg(feature = "verif")]
+pub mod handle;
 
 #[cfg(feature = "verif")]
 pub mod verif_hooks;
